@@ -22,6 +22,7 @@ META = dict(
 )
 
 MAGIC_WIN = 65535
+_LOGGING_STARTED = False
 MAGIC_FRAME = 16384
 
 
@@ -130,7 +131,13 @@ class Harness:
         self.dead = False
         self.peer_refused = None
         # errors swallowed by a Deferred / logged by the reactor are observable through the log system
-        from twisted.logger import globalLogPublisher
+        from twisted.logger import globalLogPublisher, globalLogBeginner
+        global _LOGGING_STARTED
+        if not _LOGGING_STARTED:
+            # until logging "begins" twisted prints critical events (tracebacks of unhandled Deferred errors) to
+            # stderr; they are observed below and end up in the trace instead
+            _LOGGING_STARTED = True
+            globalLogBeginner.beginLoggingTo([lambda event: None], redirectStandardIO=False, discardBuffer=True)
         self.failures = []
 
         def obs(event):
@@ -580,7 +587,7 @@ def run(ctx):
     ctx.extra["liveness_vacuity_guard"] = "Resume violated in SpecNoFair as required"
 
     impl_traces = impl_layer(ctx)
-    n = ctx.pick(1200, 40000)
+    n = ctx.pick(1200, 20000)
     traces = impl_traces + [run_plan(gen_plan(ctx.rng)) for _ in range(n)]
     ctx.log("recorded %d real executions, %d events" % (len(traces), sum(len(t["ev"]) for t in traces)))
     ctx.note_traces(traces)
